@@ -470,7 +470,7 @@ async fn run_das(ctx: &Arc<RunCtx>) {
     let sampling_window = Duration::from_secs(ctx.range("cfg.sampling_window_s", span_s / 3 + 20, span_s * 2));
     let limit = ctx.range("cfg.limit", 1, 4) as usize;
     let extra = ctx.range("cfg.extra", 0, 5) as usize;
-    let store_delay = ctx.choose("cfg.store_delay", 3);
+    let store_delay = *ctx.pick("cfg.store_delay", &[0u32, 1, 2, 2, 30, 600]);
     let p_never = if ctx.coin("cfg.timeouts_on", 600) { ctx.range("cfg.p_never", 10, 250) as u32 } else { 0 };
     let p_byz = if ctx.coin("cfg.byz_on", 700) { ctx.range("cfg.p_byz", 50, 600) as u32 } else { 0 };
     let p_late = if ctx.coin("cfg.late_on", 300) { 80 } else { 0 };
